@@ -270,9 +270,43 @@ func (ts *TS) Call(cc *hotline.ClientConn, t hotline.Transaction) (res []hotline
 				panicked = r
 			}
 		}()
+		t = throughWireParser(t)
 		res = h(cc, &t)
 	}()
 	return res, ts.drainOutbox(), panicked
+}
+
+// throughWireParser hands a handler what it would get in production: every request reaches a handler only after
+// the connection loop parsed it from bytes (Transaction.Write -> inner bufio.Scanner -> Field.Write).  A request whose
+// fields are well formed (size prefix = data length, data <= 65535, as NewField builds them) is serialised with the
+// real Transaction.Read and parsed back with the real Transaction.Write; the parsed transaction is what the handler
+// sees.  On code whose parser returns the fields that were sent (C01's round trip) this changes nothing; a parser that
+// aliases buffers or reorders / loses fields now shows in every handler-level family.  Requests that cannot be
+// serialised (hand-built inconsistent fields, oversize) are passed on as they are.
+func throughWireParser(t hotline.Transaction) (out hotline.Transaction) {
+	out = t
+	for _, f := range t.Fields {
+		if int(binary.BigEndian.Uint16(f.FieldSize[:])) != len(f.Data) {
+			return
+		}
+	}
+	defer func() {
+		if recover() != nil {
+			out = t
+		}
+	}()
+	src := t
+	src.Fields = append([]hotline.Field(nil), t.Fields...)
+	b, err := io.ReadAll(&src)
+	if err != nil || len(b) < 22 {
+		return
+	}
+	var u hotline.Transaction
+	if _, err := u.Write(b); err != nil {
+		return
+	}
+	u.ClientID = t.ClientID
+	return u
 }
 
 // drainOutbox returns everything queued on the outbox so far.  The collector goroutine appends after it
